@@ -94,5 +94,5 @@ ENGINES = [
 # properties not claimed yet (kept current while the framework is being built)
 NOT_APPLICABLE = [
     {"property_id": p, "reason": "check under construction in this session; not claimed until it has been run clean on the unchanged tree"}
-    for p in ["C04", "C05", "C06", "C07", "C08", "C09", "C10", "C11", "C12", "C13", "C14", "C15", "C16", "C17", "C18", "C19"]
+    for p in ["C04", "C07", "C08", "C10", "C11", "C12", "C13", "C14", "C15", "C16", "C17", "C18", "C19"]
 ]
